@@ -101,7 +101,11 @@ fn c04_batch(recs: &[Vec<u8>], k: usize, norm: bool) -> Option<Vec<(String, Stri
 
 /// rows of a batch of records for a given worker count and memory ceiling (bytes; None = default)
 fn c04_batch_cfg(recs: &[Vec<u8>], k: usize, norm: bool, threads: usize, memory: Option<usize>) -> Option<Vec<(String, String)>> {
-    let out = run_oligo(recs, k, norm, threads, " ", false, memory);
+    c04_batch_delim(recs, k, norm, threads, memory, " ")
+}
+/// the same with a given delimiter: one value per canonical column whatever string separates them, on both writers
+fn c04_batch_delim(recs: &[Vec<u8>], k: usize, norm: bool, threads: usize, memory: Option<usize>, delim: &str) -> Option<Vec<(String, String)>> {
+    let out = run_oligo(recs, k, norm, threads, delim, false, memory);
     let why = match out {
         Err(e) => Some((0usize, e)),
         Ok(text) => {
@@ -111,7 +115,7 @@ fn c04_batch_cfg(recs: &[Vec<u8>], k: usize, norm: bool, threads: usize, memory:
                 w = Some((0, format!("{} lines for {} records", lines.len() - 1, recs.len())));
             } else {
                 for (i, r) in recs.iter().enumerate() {
-                    if let Err(e) = row_matches(lines[i], r, k, norm, " ") { w = Some((i, e)); break; }
+                    if let Err(e) = row_matches(lines[i], r, k, norm, delim) { w = Some((i, e)); break; }
                     // invariances: reverse complement, case, U for T
                     let _ = r;
                 }
@@ -121,7 +125,8 @@ fn c04_batch_cfg(recs: &[Vec<u8>], k: usize, norm: bool, threads: usize, memory:
     };
     why.map(|(i, e)| {
         let mut v = vec![("seq".into(), show(&recs[i.min(recs.len() - 1)])), ("k".into(), k.to_string()), ("norm".into(), norm.to_string()), ("why".into(), e)];
-        if threads != 2 || memory.is_some() {
+        if delim != " " { v.push(("delim".into(), delim.to_string())); }
+        if threads != 2 || memory.is_some() || delim != " " {
             v.push(("records".into(), recs.iter().map(|r| show(r)).collect::<Vec<_>>().join("|")));
             v.push(("threads".into(), threads.to_string()));
             v.push(("memory".into(), memory.map(|m| m.to_string()).unwrap_or_default()));
@@ -138,7 +143,8 @@ pub fn c04(o: &Opts) -> Outcome {
         let norm = inp["norm"] == "true";
         if let Some(t) = inp.get("threads") {
             let recs: Vec<Vec<u8>> = inp["records"].split('|').map(unshow).collect();
-            return Outcome { cases: 1, witness: c04_batch_cfg(&recs, k, norm, t.parse().unwrap(), inp["memory"].parse().ok()) };
+            let delim = inp.get("delim").map(|d| d.as_str()).unwrap_or(" ");
+            return Outcome { cases: 1, witness: c04_batch_delim(&recs, k, norm, t.parse().unwrap(), inp["memory"].parse().ok(), delim) };
         }
         return Outcome { cases: 1, witness: c04_batch(&[s], k, norm) };
     }
@@ -160,6 +166,18 @@ pub fn c04(o: &Opts) -> Outcome {
                 for memory in [None, Some(1usize), Some(20), Some(30)] {
                     cases += recs.len() as u64;
                     if let Some(w) = c04_batch_cfg(&recs, 3, norm, threads, memory) { return Outcome { cases, witness: Some(w) }; }
+                }
+            }
+        }
+    }
+    // the delimiter presets (and a longer string) on both writers: a row is one value per canonical column
+    {
+        let recs: Vec<Vec<u8>> = vec![b"ACGTACGTTGCA".to_vec(), b"GGGTTTAAACCC".to_vec(), b"AC".to_vec(), b"ACGNTAC".to_vec()];
+        for delim in [",", "\t", ";;"] {
+            for norm in [false, true] {
+                for threads in [1usize, 4] {
+                    cases += recs.len() as u64;
+                    if let Some(w) = c04_batch_delim(&recs, 3, norm, threads, None, delim) { return Outcome { cases, witness: Some(w) }; }
                 }
             }
         }
